@@ -3,6 +3,14 @@ HOOK_COMMITS = []   # no source hooks needed so far
 FIX_COMMITS = ["750ea7d fix: RouterOS join nested sections (C04)", "e01415d fix: optixtrans match expression (C18)", "12c75c5 fix: make_patch op order (C13)", "8c66073 fix: resolved pointers escaped (C13)", "4756b94 fix: huawei multi_all unchanged lines (C11)", "81e31d8 fix: implicit default block with its defaults (C17)", "5bfc12a fix: order_config word boundary (C08)", "943f14e fix: patch sort key (C08)", "1bcbbe1 fix: rewrite logic sends the new line ... (C01)", "28efb2a fix: file mode builds the patch from the complete diff (C16)", "c62ee59 fix: pool parent loop leaves only when the done queue is drained (C12)"]
 PENDING = {}
 CLAIMS = {
+    "C15": {
+        "technique": "TLA+ mesh handler semantics (Mesh.tla: handler tables, order-free field-by-field combination vs sequential merging); TLC MC with handler application as actions in every order; real MeshExecutor on both ends under every registration permutation judged by a TLC trace judge",
+        "text": "TLC applies every subset of a handler menu in every order: the sequentially merged state equals the order-free combination and a conflict is raised in every order or in none. Real MeshRulesRegistry + "
+                "stub storage for two devices with 1..3 parallel links, 1..3 handler tables, direct/indirect rules, port/lag/svi/subif interface modes, in every registration permutation, executed for BOTH ends; judged: "
+                "same result in all orders, conflict iff a single-valued field gets two values, addr/remote_as/local_as/mtu/bfd mirrored from the right tables, families united and mirrored, selected interface, ambiguous "
+                "multi-link selection refused; merge(a,b) per declared merger incl. non-mutation.",
+        "note": "Two-device topologies only (3..5 devices, virtual rules and name-template filters are not built yet: stated in evidence assumptions). Handlers are constant tables.",
+    },
     "C04": {
         "technique": "TLC-enumerated trees + offside oracle (Formatter.tla/Offside.tla): MC of the indented rendering on the model; real join/parse of all 14 vendors judged by a TLC trace judge (identity, fixed point, independent text oracle)",
         "text": "TLC enumerates all trees (depth<=2, width<=2, rows of 1-3 words) and checks on the model that the indented rendering parses back for units 1/2/4; every tree and seeded random trees to depth 5 are rendered "
